@@ -183,6 +183,8 @@ Definition parse (o : opts) (s : list Z) : outcome :=
       if res_len r =? 0 then OutParserError else
       match build_naive r (o_default o) with
       | Err ValueError => OutParserError
+      (* `except ValueError as e: raise ParserError(str(e) + ...)`: str(e) raises ValueError *)
+      | Err ValueErrorNoStr => OutEscape ValueErrorNoStr
       | Err OverflowError => OutOverflow
       | Err e => OutEscape e
       | Ok naive =>
